@@ -50,15 +50,16 @@
 (* of any depth with the ES rules for `export *` (no default, explicit      *)
 (* exports shadow star exports, ambiguous star names are dropped).          *)
 (*                                                                          *)
-(* L == [ files   : [FileId -> [live, bits, isEntry]],                      *)
+(* L == [ files   : [FileId -> [live, bits, isEntry, css, wrap]],           *)
 (*        entries : set of entry ids (the elements of the bit sets),        *)
-(*        chunks  : [ChunkId -> [bits, isEntry, entry, files, order,        *)
+(*        chunks  : [ChunkId -> [bits, isEntry, entry, files, order, kind,  *)
 (*                     imports : SUBSET [chunk, kind],                      *)
 (*                     exports : SUBSET [alias, file, name],                *)
 (*                     importsFrom : SUBSET [chunk, alias]]],               *)
 (*        assigns : SUBSET [by, file, name]   code of file `by` assigns to  *)
 (*                                            the symbol [file, name]       *)
-(*        uses    : SUBSET [by, file, name],   top-level reads              *)
+(*        uses    : SUBSET [by, file, name],   top-level reads, and calls   *)
+(*                     of wrappers: name "wrapper" = init_x / require_x     *)
 (*        eexports: SUBSET [entry, file, name] ]  the entry point exports   *)
 (*                                            the symbol [file, name]       *)
 (* The export aliases of a chunk are assigned by a model of the linker's    *)
@@ -79,7 +80,14 @@ RxTargets(G, f) == [i \in 1..Len(G.files[f].rx) |-> G.files[f].rx[i].to]
 StaticSeq(G, f) == ImportTargets(G, f) \o G.files[f].reexp \o RxTargets(G, f)
 StaticTargets(G, f) == SeqToSet(StaticSeq(G, f))
 DynTargets(G, f) == SeqToSet(G.files[f].dyn)
+ReqTargets(G, f) == SeqToSet(G.files[f].req)
 UserEntries(G) == SeqToSet(G.entries)
+\* loader / representation kinds
+JSLoaders == {"js", "ts", "tsx", "jsx", "json"}
+IsCss(G, f) == G.files[f].ldr = "css"
+IsJS(G, f) == ~IsCss(G, f)
+\* a module whose body reports (style sheets and JSON data do not)
+HasBody(G, f) == G.files[f].ldr \notin {"css", "json"}
 
 \* Post-order depth-first traversal; ch is a function node -> sequence of
 \* children, acc = [seen, order].  A node is marked when entered, so a cyclic
@@ -96,7 +104,9 @@ POSeq(ch, s, acc) ==
 EvalOrder(ch, roots, seen) == POSeq(ch, roots, [seen |-> seen, order |-> <<>>]).order
 Reach(ch, roots) == SeqToSet(EvalOrder(ch, roots, {}))
 
-SrcChildren(G) == [f \in FileIds(G) |-> StaticSeq(G, f)]
+\* (a require() evaluates its target during the body; for the set of evaluated modules and once-only evaluation the
+\* calls are children after the static imports; a style sheet is not evaluated)
+SrcChildren(G) == [f \in FileIds(G) |-> SelectSeq(StaticSeq(G, f), LAMBDA t : IsJS(G, t)) \o G.files[f].req]
 \* ES semantics: loading entry e into a registry where `done` is evaluated runs these bodies, in this order
 SrcEvalOrder(G, e, done) == EvalOrder(SrcChildren(G), <<e>>, done)
 
@@ -113,7 +123,7 @@ AnySeq(S) == IF S = {} THEN <<>> ELSE LET x == CHOOSE y \in S : TRUE IN <<x>> \o
 \* tree shaking at file granularity: every file imported (statically or
 \* dynamically) from a live file is live (all files of this alphabet have
 \* side effects; the tree-shaking extension refines this stage)
-AllChildren(G) == [f \in FileIds(G) |-> StaticSeq(G, f) \o G.files[f].dyn]
+AllChildren(G) == [f \in FileIds(G) |-> StaticSeq(G, f) \o G.files[f].req \o G.files[f].dyn]
 Live(G) == Reach(AllChildren(G), G.entries)
 
 \* with splitting, the target of a dynamic import() becomes an entry point of its own
@@ -124,7 +134,7 @@ IsExternalDyn(G, f, t) == G.splitting /\ t \in EntryIds(G) /\ t # f
 \* markFileReachableForCodeSplitting: static records and the dynamic ones that are not external
 ReachChildren(G) ==
   [f \in FileIds(G) |->
-     StaticSeq(G, f) \o SelectSeq(G.files[f].dyn, LAMBDA t : ~IsExternalDyn(G, f, t))]
+     StaticSeq(G, f) \o G.files[f].req \o SelectSeq(G.files[f].dyn, LAMBDA t : ~IsExternalDyn(G, f, t))]
 ReachOf(G) == [e \in EntryIds(G) |-> Reach(ReachChildren(G), <<e>>)]
 \* which entry points reach the file
 EntryBitsIn(reach, f) == {e \in DOMAIN reach : f \in reach[e]}
@@ -135,6 +145,26 @@ EntryBits(G, f) == EntryBitsIn(ReachOf(G), f)
 ChunkKeysIn(G, reach) == {{e} : e \in DOMAIN reach} \cup {EntryBitsIn(reach, f) : f \in Live(G)}
 ChunkKeys(G) == ChunkKeysIn(G, ReachOf(G))
 ChunkOf(G, f) == EntryBits(G, f)
+
+\* wrap kinds (graph.WrapNone / WrapESM / WrapCJS), derived from how a file is reached: a file in CommonJS syntax is
+\* wrapped in __commonJS (require_x); an ES module that is the target of require() (or of an import() that is not turned
+\* into a chunk import) is wrapped lazily in __esm (init_x), and so is every file a wrapped file imports by statement
+CjsFiles(G) == {f \in FileIds(G) : G.files[f].cjs}
+LazyTargets(G) ==
+  UNION {ReqTargets(G, f) \cup {t \in DynTargets(G, f) : ~IsExternalDyn(G, f, t)} : f \in Live(G)}
+RECURSIVE WrapFix(_, _)
+WrapFix(G, W) ==
+  LET N == W \cup UNION {{t \in StaticTargets(G, f) : IsJS(G, t)} : f \in W}
+  IN IF N = W THEN W ELSE WrapFix(G, N)
+Wrapped(G) == WrapFix(G, (LazyTargets(G) \cup CjsFiles(G)) \cap Live(G))
+WrapOfIn(G, W, f) == IF G.files[f].cjs THEN "cjs" ELSE IF f \in W THEN "esm" ELSE "none"
+WrapOf(G, f) == WrapOfIn(G, Wrapped(G), f)
+\* the wrapper symbol of a wrapped file (init_x / require_x): a symbol of the file
+WrapperSym(f) == [file |-> f, name |-> "wrapper"]
+\* the style sheets an entry point reaches through any import record (static, require(), import()): findImportedCSSFilesInJSOrder
+CssOf(G, e) == {f \in Reach(AllChildren(G), <<e>>) : IsCss(G, f)}
+\* the id of the CSS chunk of entry point e (the JS chunk of e is {e})
+CssId(e) == {0 - e}
 
 \* export table of a file: own bindings and re-exports of any depth (static imports are acyclic).
 \* A table entry is [alias, file, name, kind]: the file exports the symbol [file, name] as `alias`;
@@ -175,14 +205,24 @@ ExportsOf(G, f) == {[alias |-> x.alias, file |-> x.file, name |-> x.name] : x \i
 Sym(x) == [file |-> x.file, name |-> x.name]
 \* symbols the code of f refers to (imports are followed to the declaring file, as ImportsToBind does);
 \* a re-export statement is not a use
-UsesOf(G, f) ==
-  UNION {{Sym(x) : x \in TableOf(G, G.files[f].imports[i].to)}
+\* a binding of a CommonJS file is a property of what its wrapper returns (import_x.v): the use is of the wrapper
+BindingUsesOf(G, f) ==
+  UNION {{IF G.files[x.file].cjs THEN WrapperSym(x.file) ELSE Sym(x) : x \in TableOf(G, G.files[f].imports[i].to)}
            : i \in {j \in 1..Len(G.files[f].imports) : G.files[f].imports[j].bind}}
+\* an import statement (or export-from) of a wrapped file calls its wrapper; require() of a file calls its wrapper and,
+\* for a lazily initialised ES module, reads its exports object
+WrapperUsesOfIn(G, W, f) ==
+  {WrapperSym(t) : t \in {t2 \in StaticTargets(G, f) \cup ReqTargets(G, f) : IsJS(G, t2) /\ WrapOfIn(G, W, t2) # "none"}} \cup
+  {[file |-> t, name |-> "*"] : t \in {t2 \in ReqTargets(G, f) : WrapOfIn(G, W, t2) = "esm"}}
+UsesOfIn(G, W, f) == BindingUsesOf(G, f) \cup WrapperUsesOfIn(G, W, f)
+UsesOf(G, f) == UsesOfIn(G, Wrapped(G), f)
 \* an entry point chunk also needs every binding the entry point exports, whatever chain of
 \* re-exports it arrives through
-EntryExportSyms(G, e) == {Sym(x) : x \in TableOf(G, e)}
+\* (and the entry chunk of a wrapped entry point calls its wrapper: init_e() / export default require_e())
+EntryExportSymsIn(G, W, e) == {Sym(x) : x \in TableOf(G, e)} \cup (IF WrapOfIn(G, W, e) # "none" THEN {WrapperSym(e)} ELSE {})
+EntryExportSyms(G, e) == EntryExportSymsIn(G, Wrapped(G), e)
 \* the only assignments of this alphabet: `bump` of f assigns f's own `c`
-AssignsOf(G, f) == IF G.files[f].exports THEN {[file |-> f, name |-> "c" \o G.files[f].sfx]} ELSE {}
+AssignsOf(G, f) == IF G.files[f].exports /\ ~G.files[f].cjs THEN {[file |-> f, name |-> "c" \o G.files[f].sfx]} ELSE {}
 
 \* an injective abstract alias for a symbol exported from its chunk (kept for reference; Compute
 \* assigns aliases with the renamer model below)
@@ -214,6 +254,7 @@ RenameAll(names, used, marksNew) ==
 \* the original name of a symbol as the linker sees it
 OrigName(G, s) == CASE s.name = "default" -> G.files[s.file].name \o "_default"
                     [] s.name = "*"       -> G.files[s.file].name \o "_exports"
+                    [] s.name = "wrapper" -> (IF G.files[s.file].cjs THEN "require_" ELSE "init_") \o G.files[s.file].name
                     [] OTHER              -> s.name
 \* the exported symbols of a chunk in a stable order: by file, then in an arbitrary fixed order
 RECURSIVE ExportSeqFrom(_, _)
@@ -234,15 +275,19 @@ ComputeWith(G, marksNew) ==
   LET live    == TLCEval(Live(G))
       reach   == TLCEval(ReachOf(G))
       ents    == DOMAIN reach
+      W       == TLCEval(Wrapped(G))
       bits    == TLCEval([f \in FileIds(G) |-> IF f \in live THEN EntryBitsIn(reach, f) ELSE {}])
-      keys    == TLCEval({{e} : e \in ents} \cup {bits[f] : f \in live})
-      filesOf == TLCEval([K \in keys |-> {f \in live : bits[f] = K}])
+      \* computeChunks: JS chunks by bit set (JS representations only); a CSS chunk for every JS entry point that reaches CSS
+      keys    == TLCEval({{e} : e \in ents} \cup {bits[f] : f \in {f2 \in live : IsJS(G, f2)}})
+      filesOf == TLCEval([K \in keys |-> {f \in live : bits[f] = K /\ IsJS(G, f)}])
+      cssOf   == TLCEval([e \in ents |-> CssOf(G, e)])
+      cssEnts == {e \in ents : cssOf[e] # {}}
       isEntryChunk(K) == \E e \in ents : K = {e}
       entryOf(K) == IF isEntryChunk(K) THEN CHOOSE e \in ents : K = {e} ELSE NoFile
       \* symbols the chunk needs: uses of its files, and the exports of its entry point
       needs   == TLCEval([K \in keys |->
-                    UNION {UsesOf(G, f) : f \in filesOf[K]} \cup
-                    (IF isEntryChunk(K) THEN EntryExportSyms(G, entryOf(K)) ELSE {})])
+                    UNION {UsesOfIn(G, W, f) : f \in filesOf[K]} \cup
+                    (IF isEntryChunk(K) THEN EntryExportSymsIn(G, W, entryOf(K)) ELSE {})])
       foreign == TLCEval([K \in keys |-> {s \in needs[K] : bits[s.file] # K}])
       allForeign == TLCEval(UNION {foreign[K2] : K2 \in keys})
       \* computeCrossChunkDependencies: the alias table of every chunk
@@ -254,10 +299,9 @@ ComputeWith(G, marksNew) ==
       dynImports  == [K \in keys |->
                         {{t} : t \in UNION {{d \in DynTargets(G, f) : IsExternalDyn(G, f, d)} : f \in filesOf[K]}} \ {K}]
       order   == TLCEval(GlobalOrder(G))
-  IN [ files   |-> [f \in FileIds(G) |-> [live |-> f \in live, bits |-> bits[f], isEntry |-> f \in ents]],
-       entries |-> ents,
-       chunks  |-> [K \in keys |->
+      jsChunk(K) ==
                      [ bits    |-> K,
+                       kind    |-> "js",
                        isEntry |-> isEntryChunk(K),
                        entry   |-> entryOf(K),
                        files   |-> filesOf[K],
@@ -266,10 +310,18 @@ ComputeWith(G, marksNew) ==
                                    {[chunk |-> K2, kind |-> "dynamic"] : K2 \in dynImports[K]},
                        exports |-> {[alias |-> alias[K][s], file |-> s.file, name |-> s.name]
                                       : s \in {s2 \in allForeign : bits[s2.file] = K}},
-                       importsFrom |-> {[chunk |-> bits[s.file], alias |-> alias[bits[s.file]][s]] : s \in foreign[K]} ]],
+                       importsFrom |-> {[chunk |-> bits[s.file], alias |-> alias[bits[s.file]][s]] : s \in foreign[K]} ]
+      cssChunk(e) ==
+                     [ bits |-> {e}, kind |-> "css", isEntry |-> TRUE, entry |-> e, files |-> cssOf[e], order |-> <<>>,
+                       imports |-> {}, exports |-> {}, importsFrom |-> {} ]
+  IN [ files   |-> [f \in FileIds(G) |-> [live |-> f \in live, bits |-> bits[f], isEntry |-> f \in ents, css |-> IsCss(G, f),
+                                           wrap |-> WrapOfIn(G, W, f)]],
+       entries |-> ents,
+       chunks  |-> [K \in keys \cup {CssId(e) : e \in cssEnts} |->
+                      IF K \in keys THEN jsChunk(K) ELSE cssChunk(CHOOSE e \in cssEnts : CssId(e) = K)],
        assigns |-> UNION {{[by |-> f, file |-> s.file, name |-> s.name] : s \in AssignsOf(G, f)} : f \in live},
-       uses    |-> UNION {{[by |-> f, file |-> s.file, name |-> s.name] : s \in UsesOf(G, f)} : f \in live},
-       eexports |-> UNION {{[entry |-> e, file |-> s.file, name |-> s.name] : s \in EntryExportSyms(G, e)} : e \in ents} ]
+       uses    |-> UNION {{[by |-> f, file |-> s.file, name |-> s.name] : s \in UsesOfIn(G, W, f)} : f \in {f2 \in live : IsJS(G, f2)}},
+       eexports |-> UNION {{[entry |-> e, file |-> s.file, name |-> s.name] : s \in EntryExportSymsIn(G, W, e)} : e \in ents} ]
 Compute(G) == ComputeWith(G, TRUE)
 
 -----------------------------------------------------------------------------
@@ -277,8 +329,13 @@ Compute(G) == ComputeWith(G, TRUE)
 
 ChunkIds(L) == DOMAIN L.chunks
 LiveFiles(L) == {f \in DOMAIN L.files : L.files[f].live}
+\* (link results built by other specifications may lack the fields kind / css / wrap: every chunk and file is JS then)
+KindOf(L, c) == IF "kind" \in DOMAIN L.chunks[c] THEN L.chunks[c].kind ELSE "js"
+JSChunkIds(L) == {c \in ChunkIds(L) : KindOf(L, c) = "js"}
+CSSChunkIds(L) == {c \in ChunkIds(L) : KindOf(L, c) = "css"}
+IsCssFile(L, f) == IF "css" \in DOMAIN L.files[f] THEN L.files[f].css ELSE FALSE
 ChunksWith(L, f) == {c \in ChunkIds(L) : f \in L.chunks[c].files}
-ChunkOfFile(L, f) == CHOOSE c \in ChunkIds(L) : f \in L.chunks[c].files
+ChunkOfFile(L, f) == CHOOSE c \in JSChunkIds(L) : f \in L.chunks[c].files
 StaticImports(L, c) == {i.chunk : i \in {j \in L.chunks[c].imports : j.kind = "static"}}
 DynamicImports(L, c) == {i.chunk : i \in {j \in L.chunks[c].imports : j.kind = "dynamic"}}
 
@@ -293,21 +350,43 @@ StaticClosure(L, c) == StaticClosureFrom(L, {c}, {c})
 StaticReachPlus(L, c) ==
   LET first == StaticImports(L, c) \cap ChunkIds(L) IN StaticClosureFrom(L, first, first)
 
-\* every live file is in exactly one chunk, and only live files are in chunks
+\* every live JS file is in exactly one chunk, a JS chunk; a live style sheet is in CSS chunks only, and in the CSS
+\* chunk of every entry point that reaches it; only live files are in chunks
 ChunkPartition(L) ==
-  /\ \A f \in LiveFiles(L) : Cardinality(ChunksWith(L, f)) = 1
+  /\ \A f \in LiveFiles(L) :
+        IF IsCssFile(L, f)
+        THEN /\ ChunksWith(L, f) \subseteq CSSChunkIds(L)
+             /\ \A e \in L.files[f].bits : \E c \in ChunksWith(L, f) : L.chunks[c].isEntry /\ L.chunks[c].entry = e
+        ELSE Cardinality(ChunksWith(L, f)) = 1 /\ ChunksWith(L, f) \subseteq JSChunkIds(L)
   /\ \A c \in ChunkIds(L) : L.chunks[c].files \subseteq LiveFiles(L)
 
-\* a file lives in the chunk of its bit set; there is one chunk per bit set;
-\* one entry chunk per entry point, carrying exactly that entry point's bit
+\* a JS file lives in the chunk of its bit set; there is one chunk per bit set and kind;
+\* one JS entry chunk per entry point (a JS file), carrying exactly that entry point's bit
 SameBitsSameChunk(L) ==
-  /\ \A f \in LiveFiles(L) : \A c \in ChunksWith(L, f) : L.chunks[c].bits = L.files[f].bits
-  /\ \A c1, c2 \in ChunkIds(L) : L.chunks[c1].bits = L.chunks[c2].bits => c1 = c2
-  /\ \A e \in L.entries : \E c \in ChunkIds(L) :
+  /\ \A f \in LiveFiles(L) : \A c \in ChunksWith(L, f) \cap JSChunkIds(L) : L.chunks[c].bits = L.files[f].bits
+  /\ \A c1, c2 \in ChunkIds(L) : (L.chunks[c1].bits = L.chunks[c2].bits /\ KindOf(L, c1) = KindOf(L, c2)) => c1 = c2
+  /\ \A e \in L.entries : (e \in DOMAIN L.files /\ IsCssFile(L, e)) \/ \E c \in JSChunkIds(L) :
         L.chunks[c].isEntry /\ L.chunks[c].entry = e /\ L.chunks[c].bits = {e}
   /\ \A c \in ChunkIds(L) : L.chunks[c].isEntry =>
         L.chunks[c].entry \in L.entries /\ L.chunks[c].bits = {L.chunks[c].entry}
   /\ \A c \in ChunkIds(L) : L.chunks[c].bits # {} /\ L.chunks[c].bits \subseteq L.entries
+
+\* the two-chunk rule: a JS entry point has a CSS chunk next to its JS chunk exactly if a style sheet carries its bit
+\* or the chunk is not empty (style sheets behind import() are included too); CSS chunks are entry chunks, import and
+\* export nothing
+TwoChunkRule(L) ==
+  /\ \A c \in CSSChunkIds(L) : L.chunks[c].isEntry /\ L.chunks[c].imports = {} /\ L.chunks[c].importsFrom = {}
+                                 /\ L.chunks[c].exports = {} /\ \A f \in L.chunks[c].files : IsCssFile(L, f)
+  /\ \A c \in JSChunkIds(L) : \A f \in L.chunks[c].files : ~IsCssFile(L, f)
+  /\ \A f \in LiveFiles(L) : IsCssFile(L, f) =>
+        \A e \in L.files[f].bits : Cardinality({c \in CSSChunkIds(L) : L.chunks[c].entry = e}) = 1
+
+\* every reference to an entry point names its JS chunk: an import() is rewritten to the JS entry chunk of its target,
+\* and no chunk imports a CSS chunk
+DynamicImportTargetsJS(L) ==
+  \A c \in ChunkIds(L) :
+     /\ \A d \in DynamicImports(L, c) : d \in ChunkIds(L) => (L.chunks[d].isEntry /\ KindOf(L, d) = "js")
+     /\ \A d \in StaticImports(L, c) : d \in ChunkIds(L) => KindOf(L, d) = "js"
 
 NoStaticChunkCycle(L) == \A c \in ChunkIds(L) : c \notin StaticReachPlus(L, c)
 
@@ -334,13 +413,19 @@ ImportsResolveToExports(L) ==
 
 \* the static closure of an entry chunk is exactly the chunks whose bits contain the entry's bit
 EntryReachesItsCode(L) ==
-  \A c \in ChunkIds(L) : L.chunks[c].isEntry =>
-     StaticClosure(L, c) = {d \in ChunkIds(L) : L.chunks[c].entry \in L.chunks[d].bits}
+  \A c \in JSChunkIds(L) : L.chunks[c].isEntry =>
+     StaticClosure(L, c) = {d \in JSChunkIds(L) : L.chunks[c].entry \in L.chunks[d].bits}
 
 \* (design) every symbol used across a chunk boundary is imported, and the
 \* declaring chunk is evaluated first under ANY post-order evaluation of the
 \* (acyclic) chunk graph: it is statically reachable from the using chunk,
 \* or it is the same chunk and the declaring file comes first
+\* (the uses include the wrapper symbols init_x / require_x of wrapped files: a chunk with a static importer or a
+\* require()r of a wrapped file of another chunk imports the wrapper)
+UseIsImported(L, u, cu, cd) ==
+  /\ cd \in StaticReachPlus(L, cu)
+  /\ \E i \in L.chunks[cu].importsFrom : i.chunk = cd /\
+        \E x \in L.chunks[cd].exports : x.alias = i.alias /\ x.file = u.file /\ x.name = u.name
 UsesAreImportedAndInitialised(L) ==
   \A u \in L.uses :
      LET cu == ChunkOfFile(L, u.by)
@@ -348,16 +433,21 @@ UsesAreImportedAndInitialised(L) ==
          pos(s, x) == CHOOSE i \in 1..Len(s) : s[i] = x
      IN IF cu = cd
         THEN u.by = u.file \/ pos(L.chunks[cu].order, u.file) < pos(L.chunks[cu].order, u.by)
-        ELSE /\ cd \in StaticReachPlus(L, cu)
-             /\ \E i \in L.chunks[cu].importsFrom : i.chunk = cd /\
-                   \E x \in L.chunks[cd].exports : x.alias = i.alias /\ x.file = u.file /\ x.name = u.name
+        ELSE UseIsImported(L, u, cu, cd)
+\* the cross-chunk half of it, for a link result whose order inside a chunk is not known (the real linker state with
+\* the uses the specification predicts joined in)
+CrossChunkUsesImported(L) ==
+  \A u \in L.uses :
+     (u.by \in LiveFiles(L) /\ u.file \in LiveFiles(L)) =>
+       \A cu \in ChunksWith(L, u.by) \cap JSChunkIds(L) : \A cd \in ChunksWith(L, u.file) \cap JSChunkIds(L) :
+          cu # cd => UseIsImported(L, u, cu, cd)
 
 \* every binding an entry point exports is declared in its entry chunk or imported by it from
 \* the declaring chunk under an alias that names exactly this binding
 \* (a link result without the field eexports, as other state specifications may build it, satisfies this trivially)
 EntryExportsImported(L) ==
   \A x \in (IF "eexports" \in DOMAIN L THEN L.eexports ELSE {}) :
-     \A ce \in {c \in ChunkIds(L) : L.chunks[c].isEntry /\ L.chunks[c].entry = x.entry} :
+     \A ce \in {c \in JSChunkIds(L) : L.chunks[c].isEntry /\ L.chunks[c].entry = x.entry} :
         \A cd \in ChunksWith(L, x.file) :
            ce # cd =>
              \E i \in L.chunks[ce].importsFrom : i.chunk = cd /\
@@ -371,7 +461,10 @@ Failing(L) ==
   (IF NoCrossChunkAssignment(L) THEN {} ELSE {"NoCrossChunkAssignment"}) \cup
   (IF ImportsResolveToExports(L) THEN {} ELSE {"ImportsResolveToExports"}) \cup
   (IF EntryReachesItsCode(L) THEN {} ELSE {"EntryReachesItsCode"}) \cup
-  (IF EntryExportsImported(L) THEN {} ELSE {"EntryExportsImported"})
+  (IF EntryExportsImported(L) THEN {} ELSE {"EntryExportsImported"}) \cup
+  (IF TwoChunkRule(L) THEN {} ELSE {"TwoChunkRule"}) \cup
+  (IF DynamicImportTargetsJS(L) THEN {} ELSE {"DynamicImportTargetsJS"}) \cup
+  (IF CrossChunkUsesImported(L) THEN {} ELSE {"CrossChunkUsesImported"})
 
 -----------------------------------------------------------------------------
 (* Load semantics of a link result: loading the entry chunk of e evaluates  *)
@@ -379,7 +472,7 @@ Failing(L) ==
 (* chunk running the bodies of its files in chunk order.                    *)
 
 ChunkChildren(L) == [c \in ChunkIds(L) |-> AnySeq(StaticImports(L, c) \cap ChunkIds(L))]
-EntryChunkOf(L, e) == CHOOSE c \in ChunkIds(L) : L.chunks[c].isEntry /\ L.chunks[c].entry = e
+EntryChunkOf(L, e) == CHOOSE c \in JSChunkIds(L) : L.chunks[c].isEntry /\ L.chunks[c].entry = e
 ChunkEvalOrder(L, e, doneChunks) == EvalOrder(ChunkChildren(L), <<EntryChunkOf(L, e)>>, doneChunks)
 RECURSIVE Flatten(_, _)
 Flatten(L, cs) == IF cs = <<>> THEN <<>> ELSE L.chunks[Head(cs)].order \o Flatten(L, Tail(cs))
